@@ -451,14 +451,21 @@ func corrC07(r *Run) {
 			}
 		}
 		// ---- a wide character at every offset -3..+3 around the first and second part boundary
-		for _, ref := range refs {
+		brefs := refs
+		if r.Quick { // the two sides of the 8/16-bit switch always, one of the others in turn
+			brefs = []uint16{255, 256, refs[r.Rng.Intn(len(refs))]}
+		}
+		for _, ref := range brefs {
 			per := per8
 			if ref > 255 {
 				per = per16
 			}
 			for off := -3; off <= 3; off++ {
-				for _, wch := range []rune{b, wide[len(wide)/2]} {
-					for _, run := range []int{1, 3} {
+				for wi, wch := range []rune{b, wide[len(wide)/2]} {
+					for ri, run := range []int{1, 3} {
+						if r.Quick && wi != ri { // quick: (b,1) and (mid,3)
+							continue
+						}
 						t := append(rept(a, per+off), rept(wch, run)...)
 						t = append(t, rept(a, per+5)...)
 						c.compose(cd, t, ref, "wide character at the part boundary")
@@ -508,7 +515,11 @@ func corrC07(r *Run) {
 			c.compose(cd, []rune{a, 0x1F600}, 3, "foreign character")
 		}
 		// ---- exactly 254 parts, one character more, and far beyond
+		long := !r.Quick || cd.name == "gsm7" || cd.name == "latin1" || cd.name == "ucs2" || cd.name == "shiftjis"
 		for k, ref := range []uint16{256, 255} {
+			if !long {
+				break
+			}
 			per := per8
 			if ref > 255 {
 				per = per16
